@@ -106,9 +106,9 @@ def pretty_timezone(tz, ctx):
     if tz == timezone.utc:
         return identifier('datetime.timezone.utc')
 
-    if tz._name is None:
-        return pretty_call_alt(ctx, timezone, args=(tz._offset, ))
-    return pretty_call_alt(ctx, timezone, args=(tz._offset, tz._name))
+    # (offset, ) or (offset, name); the C implementation of timezone
+    # has no _offset/_name attributes.
+    return pretty_call_alt(ctx, timezone, args=tz.__getinitargs__())
 
 
 def pretty_pytz_timezone(tz, ctx):
